@@ -361,6 +361,11 @@ func runC25(c *fw.Ctx) {
 
 	n := hVecCount(c25Dims)
 	confEvery := c.Pick(7, 3)
+	// quick: contents "two" for a and the second directory content for d are left
+	// to the thorough tier (12 instead of 20 commits)
+	inQuick := func(v []int) bool {
+		return c.Thorough() || (c25A[v[0]] != '2' && c25A[v[2]] != '2' && c25D[v[1]] != 'E' && c25D[v[3]] != 'E')
+	}
 	c.Bound("a_kinds", c25A)
 	c.Bound("d_shapes", c25D)
 	c.Bound("commit_pairs", len(c25A)*len(c25D)*len(c25A)*len(c25D))
@@ -368,7 +373,7 @@ func runC25(c *fw.Ctx) {
 	c.Bound("entries", c25Entry)
 	c.Bound("cases", n)
 	c.Bound("git_conformance_every", confEvery)
-	c.SetRule("all ordered pairs of 20 commits over path a (absent/2 contents/exec/symlink) and d (absent/file/dir with 2 contents: file<->dir swaps) x 7 pre-existing worktree states x 4 entry points; after a successful op: HEAD (symbolic target and commit), bytes/exec bit/symlink of every tracked path, survival of every untracked file that cannot collide with the target, and `git status` (no tracked change) are judged; every k-th case the equivalent git command is run on a twin and must satisfy the same judgement; non-trivial = op succeeded; distinct counts (worktree state, entry, whether cur==target)")
+	c.SetRule("all ordered pairs of 20 commits (quick: 12, without the second content of a and of d/g) over path a (absent/2 contents/exec/symlink) and d (absent/file/dir with 2 contents: file<->dir swaps) x 7 pre-existing worktree states x 4 entry points; after a successful op: HEAD (symbolic target and commit), bytes/exec bit/symlink of every tracked path, survival of every untracked file that cannot collide with the target, and `git status` (no tracked change) are judged; every k-th case the equivalent git command is run on a twin and must satisfy the same judgement; non-trivial = op succeeded; distinct counts (worktree state, entry, whether cur==target)")
 	c.Assume("an untracked file is only required to survive when its path neither equals nor nests with a path of the target (git itself deletes obstructing untracked content on forced checkout); case-variant paths and submodule entries are not enumerated here (case-sensitive filesystem; gitlinks are covered by C26/C33)")
 
 	if v := hDevVec(); v != nil {
@@ -383,6 +388,9 @@ func runC25(c *fw.Ctx) {
 	c.ParDo(n, 0, func(k int) {
 		i := hSpread(k, n)
 		v := hVecAt(c25Dims, i)
+		if !inQuick(v) {
+			return
+		}
 		sig, class := e.run(v)
 		c.Eval()
 		if strings.HasPrefix(class, "ok") {
@@ -399,7 +407,7 @@ func runC25(c *fw.Ctx) {
 		if sig != "" {
 			fails.add(i, v, sig)
 		}
-		if i%confEvery == 0 {
+		if (i/7)%confEvery == 0 {
 			e.conform(v)
 		}
 	})
